@@ -13,7 +13,7 @@ from vlib import common, realrun, workload
 
 
 def make_case(r):
-    kind = r.choice(['defs', 'defs', 'dt-roles', 'general'])
+    kind = r.choice(['defs', 'defs', 'dt-roles', 'general', 'bv-shared'])
     if kind == 'defs':
         # definitions whose bodies change by size-neutral accepted steps
         # (8 -> 4, a -> b) before inlining is tried
@@ -35,6 +35,26 @@ def make_case(r):
                          'has:define-fun count:assert>=1 &', 'all',
                          'has:f0'])
         rules = realrun.simple_spec(pred)
+    elif kind == 'bv-shared':
+        # A bit-vector variable replaced by a default constant: the constant
+        # is built from the index node of the declared sort, so the numeral
+        # is shared between two commands until it is re-duplicated; the
+        # round after that starts behind the declaration.  Tables keyed by
+        # node id must be those of the input the round works on.
+        w = r.choice([4, 8, 16])
+        lines = ['(set-logic QF_BV)',
+                 f'(declare-const x (_ BitVec {w}))',
+                 f'(declare-const y (_ BitVec {w}))',
+                 '(assert (= (bvadd x y) (bvmul y (bvneg x))))',
+                 '(assert (bvult y (bvor x y)))', '(check-sat)']
+        text = '\n'.join(lines) + '\n'
+        # both declarations and (bvadd x ..) stay: y gets replaced by a
+        # default constant while its declaration is still there
+        decl = ','.join(['declare-const', 'x', '%28', '_', 'BitVec', str(w),
+                         '%29', 'declare-const', 'y', '%28', '_', 'BitVec',
+                         str(w), '%29'])
+        pred = f'subseq:{decl} subseq:%28,bvadd,x &'
+        rules = realrun.simple_spec(pred)
     elif kind == 'dt-roles':
         # a name changes its role during the run (SimplifySymbolNames
         # shortens pp to p after the datatype with constructor p is gone)
@@ -55,8 +75,12 @@ def make_case(r):
         rules, _ = workload.pick_spec(r, text, families=['has', 'count',
                                                          'all', 'ntok'])
     strat = r.choice(['ddmin', 'ddmin', 'hybrid', 'hierarchical'])
+    if kind == 'bv-shared':
+        strat = r.choice(['hierarchical', 'hierarchical', 'hybrid'])
     opts = ['--strategy', strat, '-j', str(r.choice([1, 1, 2, 4])),
             '--timeout', '20', '--arithmetic', '--datatypes', '--bv']
+    if kind == 'bv-shared' and r.random() < 0.5:
+        opts += ['--disable-all', '--constants']
     return text, rules, opts, {'input': text, 'rules': rules, 'opts': opts,
                                'kind': kind}
 
